@@ -101,24 +101,24 @@ type t7xReach struct {
 }
 
 type t7x struct {
-	r                        *Run
-	tLeaf, tTE, tSCT         types.Type
-	fTS, fExt, fTE           *types.Var
-	sTS, sExt                *types.Var
-	mod                      map[*ssa.Function]bool
-	stores                   map[*ssa.Function][]*ssa.Store
-	calls                    map[*ssa.Function][]ssa.CallInstruction
-	callers                  map[*ssa.Function][]ssa.CallInstruction
-	taken                    map[*ssa.Function]string
-	invoked                  map[string][]*types.Interface
-	fieldStores              map[*types.Var][]*ssa.Store
-	globalStores             map[*ssa.Global][]*ssa.Store
-	roles                    map[*ssa.Function][]t7xRole
-	events                   map[*ssa.Function][]*t7xEvent
-	reachMemo                map[string]*t7xReach
-	reachBusy                map[string]bool
-	carryMemo                map[string]string
-	carryBusy                map[string]bool
+	r                *Run
+	tLeaf, tTE, tSCT types.Type
+	fTS, fExt, fTE   *types.Var
+	sTS, sExt        *types.Var
+	mod              map[*ssa.Function]bool
+	stores           map[*ssa.Function][]*ssa.Store
+	calls            map[*ssa.Function][]ssa.CallInstruction
+	callers          map[*ssa.Function][]ssa.CallInstruction
+	taken            map[*ssa.Function]string
+	invoked          map[string][]*types.Interface
+	fieldStores      map[*types.Var][]*ssa.Store
+	globalStores     map[*ssa.Global][]*ssa.Store
+	roles            map[*ssa.Function][]t7xRole
+	events           map[*ssa.Function][]*t7xEvent
+	reachMemo        map[string]*t7xReach
+	reachBusy        map[string]bool
+	carryMemo        map[string]string
+	carryBusy        map[string]bool
 }
 
 func c04SCTLeafExtensions(r *Run) {
